@@ -770,6 +770,24 @@ func (m *Machine) typeAssert(instr *ssa.TypeAssert, x value) value {
 	return v
 }
 
+// appendVals: append(a0, a1...) with Go's aliasing rules (in place when the capacity allows it).
+func appendVals(a0, a1 []value) []value {
+	// copy elements (struct elements must not alias)
+	if len(a0)+len(a1) <= cap(a0) {
+		res := a0[:len(a0)+len(a1)]
+		for i, e := range a1 {
+			res[len(a0)+i] = copyVal(e)
+		}
+		return res
+	}
+	res := make([]value, len(a0), growCap(len(a0)+len(a1), cap(a0)))
+	copy(res, a0)
+	for _, e := range a1 {
+		res = append(res, copyVal(e))
+	}
+	return res
+}
+
 func (m *Machine) callBuiltin(caller *frame, callpos token.Pos, fn *ssa.Builtin, args []value) value {
 	switch fn.Name() {
 	case "append":
@@ -787,20 +805,7 @@ func (m *Machine) callBuiltin(caller *frame, callpos token.Pos, fn *ssa.Builtin,
 		if len(a1) == 0 {
 			return a0
 		}
-		// copy elements (struct elements must not alias)
-		if len(a0)+len(a1) <= cap(a0) {
-			res := a0[:len(a0)+len(a1)]
-			for i, e := range a1 {
-				res[len(a0)+i] = copyVal(e)
-			}
-			return res
-		}
-		res := make([]value, len(a0), growCap(len(a0)+len(a1), cap(a0)))
-		copy(res, a0)
-		for _, e := range a1 {
-			res = append(res, copyVal(e))
-		}
-		return res
+		return appendVals(a0, a1)
 	case "copy":
 		dst, _ := args[0].([]value)
 		var src []value
